@@ -8,6 +8,10 @@ NOTES = ("Driver: /verif/verif (python3, stdlib). Every check rebuilds harness/c
          "Known findings: /verif/KNOWN_FINDINGS.txt (read-only at run time). VERIF_SEED selects the rapid seeds; sweeps ignore it.")
 
 CLAIMED = {
+ "C09": dict(
+    technique="property-based testing (rapid) with dual construction against an independent RFC-layout packet model + exhaustive sweeps of every packed 8/16-bit group",
+    level_text="Header values of every kind built through the API must encode to exactly the bytes the RFC layouts give for the same arguments, report that size, decode back to an observably equal value (dynamic payload types by ethertype / protocol / next-header chain included) and re-encode identically; frames are also taken bytes-first (incl. priority tags). Every value of VLAN TCI, IPv4 version/IHL, DSCP/ECN, flags/fragment offset, IPv6 class, flow label (all 2^20 in thorough), TCP offset/flags, fragment offset/M and IGMPv3 S/QRV is enumerated.",
+    level_note="Trusts my transcription of the RFC layouts (harness/gen/packet.go, proto2.go); LLDP TLVs are judged for self-consistency only (the library's Length convention is not 802.1AB's). The dropped priority tag is a listed known finding."),
  "C05": dict(
     technique="property-based testing (rapid): encode/decode/re-encode round trip over API-built values, decoder-built values and elements in mixed lists, compared through a reflective observer",
     level_text="Top-level messages of every controller- and switch-originated kind built through the API are encoded and decoded through Parse (or the caller-allocated receiver for kinds Parse does not dispatch); values that only the decoder can produce (parsed from conformant frames of the independent encoder, incl. ONF experimenter OXMs) go through the same cycle; every action/instruction/bucket/match-field kind is decoded alone and followed by another element. Oracle: decode succeeds, same Go kind, equal observable dump under a closed normalisation list, Len() == extent, re-encoding == original bytes.",
@@ -65,4 +69,4 @@ for k in CLAIMED:
     ENGINES[0]["serves_properties"].append(k)
 
 NOT_APPLICABLE = {p: "check under construction in this round (design in DESIGN.md section 10); not claimed until it runs clean on the unchanged tree"
-                  for p in ["C06","C09","C10","C11","C12","C13"]}
+                  for p in ["C06","C10","C11","C12","C13"]}
